@@ -166,29 +166,93 @@ def rule_ab(ctx):
                 l, r = norm(expand(f.node, s_.value.args[0].left)), norm(expand(f.node, s_.value.args[0].right))
                 if {l, r} == {eo, ep}:
                     cd.append(s_.targets[0].id)
-        ctx.ob(Rb, f.qname, "Cartesian extent = |opposite - origin|", len(cd) == 1, str(cd), f.node)
-        # dimensions loop
-        interp = m.func(IDX, "interpret_indexing")
-        ok = False
-        desc = ""
-        for loop in ast.walk(f.node):
-            if isinstance(loop, ast.For) and isinstance(loop.target, ast.Name) and norm(loop.iter) == "range(self.space_dim)":
-                k = loop.target.id
-                env = {}
-                for st in loop.body:
-                    if isinstance(st, ast.Assign) and isinstance(st.targets[0], ast.Name):
-                        env[st.targets[0].id] = st.value
-                for st in loop.body:
-                    if isinstance(st, ast.Assign) and isinstance(st.value, ast.Call) and m.resolve_call(st.value, f) is interp and isinstance(st.targets[0], ast.Tuple):
-                        a0, a1 = st.value.args
-                        a0 = env.get(a0.id, a0) if isinstance(a0, ast.Name) else a0
-                        a1 = env.get(a1.id, a1) if isinstance(a1, ast.Name) else a1
-                        posn = norm(st.targets[0].elts[0])
-                        app = [s for s in loop.body if isinstance(s, ast.Expr) and isinstance(s.value, ast.Call) and norm(s.value.func).endswith(".append")]
-                        desc = f"T({norm(a0)}, {norm(a1)}) -> {posn}; {[norm(a.value) for a in app]}"
-                        ok = (norm(a0) == f"'ijk'[{k}]" and norm(a1) == "'xyz'[:self.space_dim]" and len(app) == 1 and cd
-                              and norm(app[0].value.args[0]) == f"{cd[0]}[{posn}]")
-        ctx.ob(Rb, f.qname, "dimensions[m] = extent[interpret_indexing('ijk'[m], 'xyz'[:dim]).pos] for m in range(space_dim)", ok, desc, f.node)
+        # what is stored as 'dimensions' is evaluated symbolically per dimension: the extent |opposite - origin| (wherever it is named or
+        # written in place) is replaced by a symbolic Cartesian vector [E0, E1, E2]; the result must be that vector in matrix order
+        from ..fold import Folder, Raised, Refuse
+        from ..algebra import Poly
+        from . import c20
+
+        T_i, _, _ = c20.extract_tables(ctx)
+        ext_forms = {f"np.abs({ep} - {eo})", f"np.abs({eo} - {ep})"}
+
+        class ExtSub(ast.NodeTransformer):
+            hits = 0
+
+            def generic_visit(self, n):
+                if isinstance(n, ast.expr) and not isinstance(n, (ast.Constant,)):
+                    try:
+                        if norm(expand(f.node, n)) in ext_forms:
+                            ExtSub.hits += 1
+                            return ast.copy_location(ast.Name(id="__EXT__", ctx=ast.Load()), n)
+                    except Exception:
+                        pass
+                return super().generic_visit(n)
+
+        dstores = [n for n in ast.walk(f.node) if isinstance(n, ast.Assign) and isinstance(n.targets[0], ast.Subscript) and isinstance(n.targets[0].slice, ast.Constant)
+                   and n.targets[0].slice.value == "dimensions"]
+        verdicts, why = [], ""
+        if len(dstores) == 1:
+            dval = dstores[0].value
+            # statements that build the stored value when it is a local: its assignments and the loops that append to it
+            builders = []
+            if isinstance(dval, ast.Name):
+                for st in f.node.body:
+                    touches = any((isinstance(x, ast.Name) and x.id == dval.id and isinstance(x.ctx, ast.Store)) or
+                                  (isinstance(x, ast.Call) and isinstance(x.func, ast.Attribute) and x.func.attr in ("append", "extend", "insert") and norm(x.func.value) == dval.id)
+                                  for x in ast.walk(st))
+                    if touches:
+                        builders.append(st)
+            # plus the definitions of the locals those statements read (dependency closure over the top-level statements, in program order)
+            changed = True
+            while changed:
+                changed = False
+                have = {id(b) for b in builders}
+                from ..flow import clone as _cl
+
+                needed = {x.id for st in builders + [dval] for x in ast.walk(ExtSub().visit(_cl(st))) if isinstance(x, ast.Name) and isinstance(x.ctx, ast.Load)} - {"self", "np", "darsia", "__EXT__"}
+                for st in f.node.body:
+                    if id(st) in have or not isinstance(st, (ast.Assign, ast.AnnAssign, ast.AugAssign, ast.For)):
+                        continue
+                    stored = {x.id for x in ast.walk(st) if isinstance(x, ast.Name) and isinstance(x.ctx, ast.Store)}
+                    if stored & needed and not (isinstance(st, ast.Assign) and norm(expand(f.node, st.value)) in ext_forms):
+                        builders.append(st)
+                        changed = True
+                builders.sort(key=lambda st: st.lineno)
+            for d in (1, 2, 3):
+                ExtSub.hits = 0
+                from ..flow import clone
+
+                stmts = [ExtSub().visit(clone(st)) for st in builders]
+                expr = ExtSub().visit(clone(dval))
+                for x in stmts + [expr]:
+                    ast.fix_missing_locations(x)
+                if ExtSub.hits == 0:
+                    why = "the extent |opposite - origin| does not flow into what is stored as 'dimensions'"
+                    verdicts.append(None)
+                    continue
+                fo = Folder()
+                fo.func_stack.append(f.node)
+                from ..fold import Obj
+
+                env = {"self": Obj("self", {"space_dim": d}), "__EXT__": [Poly.atom(f"E{c}") for c in range(d)]}
+                try:
+                    for st in stmts:
+                        fo.stmt(st, env)
+                    got = fo.ev(expr, env)
+                    got = list(got.data) if hasattr(got, "data") else list(got)
+                    want = [Poly.atom(f"E{T_i[('ijk'[m_], 'xyz'[:d])][1][0]}") for m_ in range(d)]
+                    verdicts.append(got == want)
+                    if got != want:
+                        why = f"dim {d}: 'dimensions' = {got!r}, the axis table prescribes {want!r} (matrix axis m takes the extent of its own Cartesian axis)"
+                except (Refuse, Raised, TypeError, ValueError) as e:
+                    verdicts.append(None)
+                    why = f"computation of 'dimensions' not found to be foldable: {e}"
+        if verdicts and all(v is True for v in verdicts):
+            ctx.ob(Rb, f.qname, "dimensions[m] = extent[interpret_indexing('ijk'[m], 'xyz'[:dim]).pos] for m in range(space_dim)", True, "", f.node)
+        elif any(v is False for v in verdicts):
+            ctx.ob(Rb, f.qname, "dimensions[m] = extent[interpret_indexing('ijk'[m], 'xyz'[:dim]).pos] for m in range(space_dim)", False, why, dstores[0], evidence=True)
+        else:
+            ctx.ob(Rb, f.qname, "dimensions[m] = extent[interpret_indexing('ijk'[m], 'xyz'[:dim]).pos] for m in range(space_dim)", False, why or "store of metadata['dimensions'] not found", f.node)
     # result construction
     rets = [n for n in ast.walk(f.node) if isinstance(n, ast.Return) and n.value is not None]
     ctx.need(len(rets) == 1, "Image.subregion: expected a single return")
@@ -318,12 +382,40 @@ def rule_d(ctx):
     ctx.ob(R, f.qname, "dates: self first, then image", f"self.date = self.date + {other}.date" in texts and f"self.date.append({other}.date)" in texts
            or any(t.startswith("self.date = ") and t.index("self.date", 11) < t.index(f"{other}.date") for t in texts if f"{other}.date" in t and t.count("self.date") > 1),
            str([t for t in texts if "date" in t][:6]), f.node)
-    am = AM(f)
-    off = f.params[2] if len(f.params) > 2 else "offset"
-    t_ok = am.has(f.node, "time = self.time if isinstance(self.time, list) else [self.time]") is not None \
-        and am.has(f.node, f"if isinstance({other}.time, list):\n    time = time + [t + {off} for t in {other}.time]\nelse:\n    time = time + [{other}.time + {off}]") is not None \
-        and am.has(f.node, "self.set_time(time)") is not None
-    ctx.ob(R, f.qname, "relative times: self's times first, image's (plus offset) appended, and that list is what is stored", t_ok, str(am.show()), f.node)
+    # the time / date bookkeeping is folded symbolically (statements outside the folding language are skipped): for list- and scalar-valued
+    # times of the appended image, set_time must receive self's times followed by the image's times plus offset, and the lists that self
+    # held before (which derived images may share) must not have been modified in place
+    from ..fold import Folder, Obj, Opaque, Raised, Refuse
+
+    for case in ("list", "scalar"):
+        T = [Opaque("t", "T0"), Opaque("t", "T1")]
+        D = [Opaque("d", "D0"), Opaque("d", "D1")]
+        me = Obj("self", {"time": T, "date": D, "time_num": 2, "time_dim": 1, "series": True})
+        oth = Obj("image", {"time": [Opaque("t", "U0"), Opaque("t", "U1")] if case == "list" else Opaque("float", "U"),
+                            "date": [Opaque("d", "E0"), Opaque("d", "E1")] if case == "list" else Opaque("d", "E"), "time_num": 2 if case == "list" else 1})
+        fo = Folder(symbolic=True)
+        fo.func_stack.append(f.node)
+        env = {f.params[0]: me, other: oth}
+        if len(f.params) > 2:
+            env[f.params[2]] = Opaque("float", "OFF")
+        for st_ in f.node.body:
+            try:
+                fo.stmt(st_, env)
+            except (Refuse, Raised):
+                pass
+        calls = [repr(t) for t in fo.trace if repr(t).startswith("self.set_time(")]
+        us = ["U0", "U1"] if case == "list" else ["U"]
+        tag = "t" if case == "list" else "float"
+        want = "self.set_time([<opaque t T0>, <opaque t T1>, " + ", ".join(f"+(<opaque {tag} {u}>, <opaque float OFF>)" for u in us) + "])"
+        if not calls:
+            ctx.ob(R, f.qname, f"relative times ({case}-valued image.time): self's times first, image's (plus offset) appended, and that list is what is stored", False, "call self.set_time(<times>) not found by the symbolic fold", f.node)
+        else:
+            ctx.ob(R, f.qname, f"relative times ({case}-valued image.time): self's times first, image's (plus offset) appended, and that list is what is stored", calls == [want],
+                   f"set_time receives {calls}", f.node, evidence=True)
+        ctx.ob(R, f.qname, f"({case}) the time list self held before is not modified in place", me.fields.get("time") is T and len(T) == 2 or (me.fields.get("time") is not T and len(T) == 2),
+               f"the list object of self.time now holds {T!r}: every image sharing it (sub-images get the same list through metadata()) sees the appended entries", f.node, evidence=True)
+        ctx.ob(R, f.qname, f"({case}) the date list self held before is not modified in place", len(D) == 2,
+               f"the list object of self.date now holds {D!r}", f.node, evidence=True)
     tn = [n for n in ast.walk(f.node) if isinstance(n, (ast.Assign, ast.AugAssign)) and any(norm(t) == "self.time_num" for t in (n.targets if isinstance(n, ast.Assign) else [n.target]))]
     tn_ok = [norm(n) for n in tn] in ([f"self.time_num += {other}.time_num"], [f"self.time_num = self.time_num + {other}.time_num"], [f"self.time_num = {other}.time_num + self.time_num"])
     ctx.ob(R, f.qname, "time_num grows by image.time_num", tn_ok, f"time_num is updated by {[norm(n) for n in tn]}" if tn else "update of self.time_num not found", f.node, evidence=bool(tn))
